@@ -8,7 +8,7 @@ from .lin import CSet, le, ge, eq, lin
 
 
 class E4:
-    def __init__(self, facts, havoc=None, keep_instates=False, soft_widen=False, probes=(), rule_c06a=False):
+    def __init__(self, facts, havoc=None, keep_instates=False, soft_widen=False, probes=(), rule_c06a=False, force_ret=None):
         """facts: analysis.facts.Facts"""
         OBLIGATIONS.clear()
         UNMODELLED.clear()
@@ -22,6 +22,7 @@ class E4:
         self.an.soft_widen_on = soft_widen
         self.an.probe_spec = list(probes)
         self.an.rule_c06a = rule_c06a
+        self.an.force_ret = dict(force_ret or {})
         self.times = {}
 
     def summarize(self, key):
